@@ -173,6 +173,18 @@ def spellings(meta):
             out.append(("/public/%252e%252e" + enc, "double-escaped-dotdot", None))
             out.append(("/" + "%252F".join(quote(x, safe="") for x in segs) + ("/" if is_dir else ""), "double-escaped-slash", None) if len(segs) >= 2 else ("/%252e" + enc, "double-escaped-dot", None))
             out.append(("/" + quote(quote(first_raw, safe=""), safe="") + rest, "double-escaped-segment", None) if quote(first_raw, safe="") != first_raw else ("/zz%252F.." + enc, "double-escaped-detour", None))
+        if segs:
+            # escaped and literal dot segments / slashes mixed: decoding comes first, then the segments are resolved -
+            # in that order, for the rule lookup exactly as for the file that is opened (detours run through the
+            # EXISTING directory /docs/, so the file system follows them too)
+            tail = enc.lstrip("/")
+            out.append(("/docs/%2e/../" + tail, "escaped-dot-then-dotdot", loc))
+            out.append(("/docs/.%2e/" + tail, "half-escaped-dotdot", loc))
+            out.append(("/docs/x/%2e%2e/../" + tail, "escaped-dotdot-then-dotdot", None))
+            out.append(("/.%2F" + tail, "dot-escaped-slash", loc))
+            out.append(("/%2F" + tail, "leading-escaped-slash", loc))
+            out.append(("/docs%2F..%2F" + tail, "escaped-slash-dotdot", loc))
+            out.append(("/docs%2F%2e%2e/" + tail, "escaped-slash-escaped-dotdot", loc))
         if is_dir and segs:
             out.append((enc.rstrip("/"), "no-trailing-slash", loc))
         if is_dir:
